@@ -403,6 +403,21 @@ def additive_factor(t, X, Y, ls, alpha=None):
     raise ValueError(t)
 
 
+def cond_scale(spec, X, Y):
+    """Magnitude of the intermediates of the Newton-Girard recursion of an additive kernel (power sums p_1^n / n!):
+    the size against which its rounding error is to be judged.  None for other kernels."""
+    from math import factorial
+
+    t = spec["t"]
+    if t not in ADDITIVE:
+        return None
+    if Y is None:
+        Y = X
+    k0 = np.abs(additive_factor(t, X, Y, _arr(spec["ls"]), spec.get("alpha")))
+    P = float(np.sum(np.max(k0, axis=(0, 1)))) if k0.size else 0.0
+    return sum(abs(float(s)) * P**n / factorial(n) for n, s in enumerate(spec["scale"]))
+
+
 def additive_reference(spec, X, Y):
     """K = sum_n scale[n] e_n(k0_1..k0_nf) for the additive family (spec is the base spec on X's columns)."""
     t = base_type(spec)
@@ -472,7 +487,9 @@ def st_index(draw, nf, size=None, kinds=("list", "tuple", "slice"), allow_neg=Fa
 
 @st.composite
 def st_additive_params(draw, nf, t, max_order=5, force_array=False, min_order=0):
-    order = max(min(draw(st.sampled_from([0, 1, 1, 2, 2, 2, 3, 3, 4, 5])), max_order), abs(min_order))
+    # order <= number of features: beyond that the elementary symmetric polynomials vanish identically and the
+    # Newton-Girard recursion only produces cancellation noise
+    order = min(max(min(draw(st.sampled_from([0, 1, 1, 2, 2, 2, 3, 3, 4, 5])), max_order), abs(min_order)), nf)
     ls = draw(st_ls(nf, force_array=force_array))
     scale = [draw(logfloat(0.05, 5.0)) for _ in range(order + 1)]
     lb = draw(st_bounds(ls, p_fixed=0.4))
